@@ -31,13 +31,13 @@ INFO = {
              '>= 2 generators or a SHORT / history request, resp. export with >= 2 rock types and >= 1 generator.'),
     'require': {
         'quick': {'counters': {'conversions': 1500, 'roundtrips': 1500, 'generator_lists_judged': 1500, 'grids_judged': 1500, 'history_judged': 1500,
-                               'file_scans': 1500, 'exports': 1500, 'rock_partitions_judged': 1500, 'sources_judged': 1500, 'eos_detections': 1500, 'models_with_extra_precision_file': 60, 'real_file_conversions': 9},
+                               'file_scans': 1500, 'exports': 1500, 'rock_partitions_judged': 1500, 'sources_judged': 1500, 'eos_detections': 1500, 'models_with_extra_precision_file': 60, 'real_file_conversions': 9, 'models_read_from_permuted_section_order': 200},
                   'seen': {'conversion_call': 5, 'generator_class': 3, 'mop_digit': 200, 'eos_route': 4, 'short_kinds': 6,
                            'history_item_kind': 3, 'atmosphere_type': 3},
                   'nontrivial': 1500},
         'thorough': {'counters': {'conversions': 18000, 'roundtrips': 18000, 'generator_lists_judged': 18000, 'grids_judged': 18000,
                                   'history_judged': 18000, 'file_scans': 18000, 'exports': 18000, 'rock_partitions_judged': 18000,
-                                  'sources_judged': 18000, 'eos_detections': 18000, 'models_with_extra_precision_file': 600, 'real_file_conversions': 21},
+                                  'sources_judged': 18000, 'eos_detections': 18000, 'models_with_extra_precision_file': 600, 'real_file_conversions': 21, 'models_read_from_permuted_section_order': 2000},
                      'seen': {'conversion_call': 5, 'generator_class': 3, 'mop_digit': 236, 'eos_route': 4, 'short_kinds': 8,
                               'history_item_kind': 3, 'atmosphere_type': 3},
                      'nontrivial': 15000},
@@ -90,6 +90,9 @@ def gen_conv_case(rng):
     if not (aut and rng.random() < 0.3):
         force['extra_precision'] = []          # else: the generator picks sections for the AUTOUGH2 extra precision file
     c = datacase.gen_case(rng, force)
+    # the file the model is read from before it is converted: written by the library (canonical section order), or an
+    # own Fortran-style rendering with the sections in another legal order (e.g. PARAM or MULTI before ROCKS)
+    c['section_order_seed'] = rng.randrange(1 << 30) if ('extra_precision' in force and rng.random() < 0.4) else None
     names = [b['name'] for b in c['blocks']]
     c['param']['option'] = [rng.randint(0, 9) if rng.random() < 0.6 else 0 for _ in range(24)]
     if aut and rng.random() < 0.5:
@@ -278,6 +281,11 @@ class Conv(object):
                 kw = {'extra_precision': cfg['extra_precision'], 'echo_extra_precision': cfg['echo']}
                 ctx.count('models_with_extra_precision_file')
             silently(dat0.write, base + '.dat', **kw)
+            if c.get('section_order_seed') is not None and not kw:
+                first = permute_front_sections(base + '.dat', random.Random(c['section_order_seed']))
+                if first:
+                    ctx.count('models_read_from_permuted_section_order')
+                    ctx.see('first_sections_of_source_file', ' '.join(first))
             dat = silently(t2d.t2data, base + '.dat')
         except Exception as e:
             ctx.count('prepare_failed_foreign')
@@ -520,6 +528,33 @@ class Conv(object):
         for f in (base + '.dat',):
             if os.path.exists(f):
                 os.remove(f)
+
+
+def permute_front_sections(path, rng):
+    """Rewrites a data file with the sections in front of the mesh (ROCKS, PARAM, MOMOP, START, NOVER, RPCAP, LINEQ,
+    SOLVR, MULTI, TIMES, SELEC, DIFFU) in a random order; SIMUL stays first, everything from ELEME on stays as it is
+    (the reader resolves SHORT / FOFT / COFT / GOFT items against the grid while it reads).  Own splitter: a section
+    runs from its keyword line to the next keyword line.  Returns the first three keywords of the new file."""
+    front = ('ROCKS', 'PARAM', 'MOMOP', 'START', 'NOVER', 'RPCAP', 'LINEQ', 'SOLVR', 'MULTI', 'TIMES', 'SELEC', 'DIFFU')
+    with open(path) as f:
+        lines = f.read().split('\n')
+    starts = [i for i, l in enumerate(lines) if i > 0 and l[:5].rstrip() in c01.SECTION_KEYS]
+    if not starts:
+        return None
+    chunks = [(lines[a][:5].rstrip(), lines[a:b]) for a, b in zip(starts, starts[1:] + [len(lines)])]
+    head = [ch for ch in chunks if ch[0] in front]
+    k = next((i for i, ch in enumerate(chunks) if ch[0] not in front and ch[0] != 'SIMUL'), len(chunks))
+    if len(head) < 2 or any(ch[0] in front for ch in chunks[k:]):
+        return None
+    simul = [ch for ch in chunks[:k] if ch[0] == 'SIMUL']
+    rng.shuffle(head)
+    new = simul + head + chunks[k:]
+    out = lines[:starts[0]]
+    for _, body in new:
+        out += body
+    with open(path, 'w') as f:
+        f.write('\n'.join(out))
+    return [ch[0] for ch in new[:3]]
 
 
 def dedupe(lst):
